@@ -141,4 +141,38 @@ theorem sign_out_given (o file : Str) (kind : PayloadKind) (k : Option Str) (h :
   | nil => exact absurd rfl h
   | cons c cs => simp [signOutPath, truthyStr]
 
+
+/-! ## Several keys in one invocation -/
+
+/-- `in-toto-sign --verify` succeeds exactly when every given key's check succeeds — wherever a failing key
+stands in the list. -/
+theorem sign_verify_success_iff : ∀ (results : List CliOutcome),
+    signVerifyOutcome results = .success ↔ ∀ o ∈ results, o = .success
+  | [] => by simp [signVerifyOutcome]
+  | o :: rest => by
+    cases o <;> simp [signVerifyOutcome, sign_verify_success_iff rest]
+
+theorem dedup_mem_iff {α : Type} [DecidableEq α] (a : α) : ∀ (l : List α), a ∈ dedup l ↔ a ∈ l
+  | [] => by simp [dedup]
+  | b :: r => by
+    simp only [dedup]
+    split
+    · rename_i hc
+      rw [dedup_mem_iff a r]
+      constructor
+      · intro h; exact List.mem_cons_of_mem _ h
+      · intro h
+        rcases List.mem_cons.mp h with rfl | h
+        · simpa using hc
+        · exact h
+    · simp only [List.mem_cons, dedup_mem_iff a r]
+
+/-- in-toto-verify hands every key given through any of the three options to the verification: none is dropped
+(so by `C01_accept_requires` the layout needs a valid signature for each). -/
+theorem verify_keys_complete (lk g vk : List Str) (k : Str) :
+    k ∈ verifyKeyIds lk g vk ↔ k ∈ lk ∨ k ∈ g ∨ k ∈ vk := by
+  unfold verifyKeyIds
+  rw [dedup_mem_iff]
+  simp [List.mem_append, or_assoc]
+
 end InToto
